@@ -42,13 +42,14 @@ Proof.
     generalize (seq 0 (Z.to_nat (atoi rest))).
     intros l. induction l as [|i l IHl]; intros cur out0 H.
     + inversion H; subst. left. reflexivity.
-    + destruct (recurse0 f k _ (w ++ lit ++ dec (Z.of_nat i) ++ [47]) cur) as [o b1|] eqn:E; [|discriminate].
+    + match type of H with context [recurse0 f k ?r ?w' cur] =>
+        destruct (recurse0 f k r w' cur) as [o b1|] eqn:E; [|discriminate] end.
       apply IH in E; [|exact Hk].
       specialize (IHl b1 (out0 ++ o) H).
       destruct IHl as [-> | [x ->]].
       * destruct E as [-> | [x ->]].
         -- left. reflexivity.
-        -- right. exists (lit ++ dec (Z.of_nat i) ++ [47] ++ x). rewrite <- !app_assoc. reflexivity.
+        -- right. eexists. rewrite <- !app_assoc. reflexivity.
       * right. exists x. reflexivity.
   - destruct (last_is_slash (w ++ upto_colon rh)) eqn:El.
     + apply Hk in H; [|apply last_is_slash_nonempty; exact El]. subst b. right.
@@ -131,7 +132,8 @@ Lemma step_port_plain_subtree walk_sub rt ids i qn qm qs buf :
   let b' := if last_is_slash b then b else b ++ [47] in
   step_port walk_sub rt ids i (Port qn qm (Some qs)) buf =
   match rt with
-  | Some o => if o_null o b' || o_disabled o b' then WOk [] b'
+  | Some o => if o_null o b' || o_disabled o b'
+              then WOk (skipped_reports rt ids i (Port qn qm (Some qs)) b') b'
               else walk_sub (Port qn qm (Some qs)) (ids ++ [i]) b'
   | None => walk_sub (Port qn qm (Some qs)) (ids ++ [i]) b'
   end.
